@@ -1,3 +1,4 @@
+import Mathlib.Tactic.Ring
 import HcipyVerif.Model.Detector
 import HcipyVerif.Lemmas.Binning
 
@@ -497,5 +498,28 @@ theorem vmul_vzero_left (n : Nat) (z : List K) (h : z.length = n) : vmul (vzero 
 
 end
 
+/-! ### time-additivity helpers (session 4) -/
+
+theorem vadd_assoc_det (a b c : List K) : vadd (vadd a b) c = vadd a (vadd b c) := by
+  induction a generalizing b c with
+  | nil => simp [vadd]
+  | cons x xs ih =>
+    cases b with
+    | nil => simp [vadd]
+    | cons y ys =>
+      cases c with
+      | nil => simp [vadd]
+      | cons z zs =>
+        have := ih ys zs
+        simp only [vadd, List.zipWith_cons_cons] at this ⊢
+        rw [this, add_assoc]
+
+theorem charge_add_dt (p : List K) (dt₁ dt₂ w : K) :
+    charge p (dt₁ + dt₂) w = vadd (charge p dt₁ w) (charge p dt₂ w) := by
+  induction p with
+  | nil => simp [charge, vadd]
+  | cons x xs ih =>
+    simp only [charge, vadd, List.map_cons, List.zipWith_cons_cons] at ih ⊢
+    rw [ih]; congr 1; ring
 
 end HcipyVerif.Detector
